@@ -26,6 +26,12 @@ func TestSweep(t *testing.T) {
 			}
 		}
 	}
+	// channel counts around 256 and 65536: the count is an int, not a narrower integer
+	for _, tn := range []string{"int8", "float32"} {
+		for _, C := range []int{255, 256, 257, 65535, 65536, 65537, 65538, 70001, 131072} {
+			Oracle.One(t, env, rec, "sweep", &Case{T: tn, C: C, L: 1, K: 2, C2: C, L2: 0, K2: 1})
+		}
+	}
 	// every channel count 1..64 (per-channel arithmetic must be exact for each of them)
 	for _, tn := range []string{"int8", "float64", "NUint32"} {
 		for C := 1; C <= 64; C++ {
